@@ -399,22 +399,35 @@ def _static(case, space=None):
     return {"ncells": len(cells), "caps": caps, "conn": rows, "grid": case["space"]["type"] in ("moore", "vonneumann", "hex")}
 
 
-def _classify(e):
-    msg = str(e)
-    if type(e) is Exception and "Cell is full" in msg:
+def _classify(e, kind="", fixed=False, bad_name=False):
+    """exception -> error kind.  By message keyword first; when a message has been reworded, by exception type and
+    call site (the kinds are a property of the site, the text is not compared)"""
+    msg = str(e).lower()
+    if type(e) is Exception and "full" in msg:
         return E_FULL
-    if isinstance(e, ValueError) and "Cannot move agent in FixedCell" in msg:
+    if isinstance(e, ValueError) and "fixedcell" in msg:
         return E_FIXED
-    if isinstance(e, ValueError) and "No cell in direction" in msg:
+    if isinstance(e, ValueError) and "no cell in direction" in msg:
         return E_NODIR
-    if isinstance(e, ValueError) and "Invalid direction" in msg:
+    if isinstance(e, ValueError) and "invalid direction" in msg:
         return E_BADDIR
-    if isinstance(e, AttributeError) and "NoneType" in msg:
+    if isinstance(e, AttributeError) and "nonetype" in msg:
         return E_ATTR
     if isinstance(e, ValueError) and "not in list" in msg:
         return E_NOTIN
     if isinstance(e, IndexError):
         return E_NOEMPTY
+    if type(e) is Exception:
+        return E_FULL
+    if type(e) is ValueError:
+        if kind in ("set", "place_rand") and fixed:
+            return E_FIXED
+        if kind == "move_rel":
+            return E_NODIR
+        if kind == "move2d":
+            return E_BADDIR if bad_name else E_NODIR
+        if kind in ("remove", "remove_all"):
+            return E_NOTIN
     return 99
 
 
@@ -701,7 +714,8 @@ def run_impl(case):
             poisoned[0] = True
             continue
         if raised is not None:
-            code = _classify(raised)
+            code = _classify(raised, kind, a is not None and kinds[a - 1] == "fixed",
+                             kind == "move2d" and str(op[2]).lower() not in ORACLE_DIRS)
             obs.append([-1, code] + cur)
             if cur != prev:
                 fail(f"C18/cell-space/{site}", i,
